@@ -3,6 +3,8 @@ package main
 // Native models of library functions and the harness intrinsics (verif*).
 
 import (
+	"reflect"
+	"encoding/json"
 	"fmt"
 	"math"
 	"sync"
@@ -643,11 +645,87 @@ func init() {
 	// --- encoding/json: reflection based; the encoded text is an opaque constant (its content is never
 	// inspected by the code under check; a harness that needs it must not rely on this model) ---
 	reg("encoding/json.Marshal", func(in *Interp, fr *frame, args []Value) Value {
-		return Tuple{byteSliceFromString("{\"opaque-json\":true}"), Iface{}}
+		// a distinct placeholder per call; the engine remembers which value it stands for, so that the
+		// same text decodes back to that value (Unmarshal below)
+		in.jsonSeq++
+		ph := fmt.Sprintf("{\"opaque-json\":%d}", in.jsonSeq)
+		if in.jsonVals == nil {
+			in.jsonVals = map[string]Iface{}
+		}
+		if it, ok := args[0].(Iface); ok {
+			in.jsonVals[ph] = Iface{T: it.T, V: copyVal(it.V)}
+		}
+		return Tuple{byteSliceFromString(ph), Iface{}}
 	})
 	reg("encoding/json.Unmarshal", func(in *Interp, fr *frame, args []Value) Value {
-		unsup("encoding/json.Unmarshal")
-		return nil
+		data, ok := concreteString(sliceAsStr(args[0].(Slice)))
+		target, ok2 := args[1].(Iface)
+		if !ok || !ok2 {
+			unsup("encoding/json.Unmarshal of symbolic text")
+		}
+		pt, isPtr := target.T.Underlying().(*types.Pointer)
+		cell, isCell := target.V.(*Value)
+		if !isPtr || !isCell || cell == nil {
+			unsup("encoding/json.Unmarshal into %v", target.T)
+		}
+		if src, found := in.jsonVals[data]; found {
+			sv := src.V
+			st := src.T
+			if sp, isP := st.Underlying().(*types.Pointer); isP {
+				if c, okc := sv.(*Value); okc && c != nil {
+					sv, st = *c, sp.Elem()
+				}
+			}
+			if !types.Identical(st, pt.Elem()) {
+				unsup("encoding/json.Unmarshal of an encoded %v into %v", st, pt.Elem())
+			}
+			*cell = copyVal(sv)
+			return Iface{}
+		}
+		// concrete text from elsewhere: decode natively, assign flat fields by their json tags
+		stt, isStruct := pt.Elem().Underlying().(*types.Struct)
+		if !isStruct {
+			unsup("encoding/json.Unmarshal into %v", pt.Elem())
+		}
+		var m map[string]interface{}
+		if err := json.Unmarshal([]byte(data), &m); err != nil {
+			return in.mkError("json: " + err.Error())
+		}
+		out := (*cell).(Struct)
+		for i := 0; i < stt.NumFields(); i++ {
+			name := stt.Field(i).Name()
+			if tag := reflect.StructTag(stt.Tag(i)).Get("json"); tag != "" {
+				if n := strings.Split(tag, ",")[0]; n != "" {
+					name = n
+				}
+			}
+			v, present := m[name]
+			if !present {
+				continue
+			}
+			ft := stt.Field(i).Type()
+			switch x := v.(type) {
+			case string:
+				if !isStringT(ft) {
+					return in.mkError("json: cannot unmarshal string into field " + name)
+				}
+				out[i] = x
+			case float64:
+				w, _, isInt := intWidth(ft)
+				if !isInt {
+					return in.mkError("json: cannot unmarshal number into field " + name)
+				}
+				out[i] = BV(w, uint64(int64(x)))
+			case bool:
+				if !isBoolT(ft) {
+					return in.mkError("json: cannot unmarshal bool into field " + name)
+				}
+				out[i] = Bool(x)
+			default:
+				unsup("encoding/json.Unmarshal: nested value for field %s", name)
+			}
+		}
+		return Iface{}
 	})
 
 	// --- strings.Builder: String() is unsafe.String(unsafe.SliceData(buf), len(buf)) ---
